@@ -555,7 +555,7 @@ fn real_main(property: &str, seed: u64, tier: Tier, replay: Option<String>, runs
     let arts: Vec<real::Artifacts> = {
         let _gag = qpz_core::Gag::new();
         std::thread::scope(|s| {
-            let hs: Vec<_> = shapes.iter().map(|(n, m)| s.spawn(move || real::build_artifacts(*n, *m))).collect();
+            let hs: Vec<_> = shapes.iter().map(|(n, m)| s.spawn(move || real::build_artifacts(*n, *m, seed, c18))).collect();
             hs.into_iter().map(|h| h.join().unwrap_or_else(|_| harness_error("artifact generation panicked"))).collect()
         })
     };
